@@ -74,7 +74,7 @@ static char g_blocks_mem[sizeof(BlockMap)] __attribute__((aligned(16)));
 static volatile int g_tab_lock = 0;
 static volatile int g_track = 1;        // block bookkeeping on (switched off inside scheduler children)
 static uint32_t g_alloc_seq = 0;
-static uint16_t g_phase = 0;            // 0 = before main, 1 = allocator registration, 2 = harness
+static uint16_t g_phase = 0;            // 0 = before main, 1 = allocator registration, 2 = harness, 3 = ancestors + derived objects of the DESCENDANT workloads
 static uint32_t g_run = 0;              // id of the current stage-1 run (blocks allocated by the tracing thread get it)
 static uint64_t g_run_allocs = 0, g_run_frees = 0;
 
@@ -123,7 +123,13 @@ NOSAN static bool find_block(uintptr_t a, uintptr_t& lo, Block& out) {
 
 extern "C" {
 NOSAN void* malloc(size_t n) { void* p = __libc_malloc(n); if (p && g_track) note_alloc(p, n); return p; }
-NOSAN void free(void* p) { if (!p) return; if (g_track) note_free(p); __libc_free(p); }
+static void on_free(void* p, uintptr_t pc);
+NOSAN void free(void* p) {
+    if (!p) return;
+    if (g_mode && !t_in && t_role) on_free(p, (uintptr_t)__builtin_return_address(0));
+    if (g_track) note_free(p);
+    __libc_free(p);
+}
 NOSAN void* calloc(size_t a, size_t b) { void* p = __libc_calloc(a, b); if (p && g_track) note_alloc(p, a * b); return p; }
 NOSAN void* realloc(void* q, size_t n) {
     if (q && g_track) note_free(q);
@@ -256,7 +262,7 @@ static std::string location_name(uintptr_t a, bool* writable = 0) {
     if (find_block(a, lo, b)) {
         if (b.run) return "heap:run-private";
         char buf[64];
-        snprintf(buf, sizeof buf, "heap:%s", b.phase == 0 ? "static-init" : b.phase == 1 ? "allocator-registry-node" : "harness");
+        snprintf(buf, sizeof buf, "heap:%s", b.phase == 0 ? "static-init" : b.phase == 1 ? "allocator-registry-node" : b.phase == 3 ? "descendant-object" : "harness");
         return buf;
     }
     Dl_info di;
@@ -611,6 +617,18 @@ NOSAN static void on_range(const void* p, size_t n, bool w, uintptr_t pc) {
     }
 }
 
+// Releasing a block conflicts with every access to it: free() of a block that existed before the run (an object handed to the
+// thread, e.g. a copy made by the main thread) counts as a write of the whole block; under the scheduler it is a scheduling point
+// when the block overlaps the conflict set.  (Blocks allocated during the run are private: nothing to record.)
+NOSAN static void on_free(void* p, uintptr_t pc) {
+    uintptr_t lo; Block b;
+    bool found;
+    { InGuard ig; found = find_block((uintptr_t)p, lo, b); }
+    if (!found || lo != (uintptr_t)p) return;
+    if (t_role == 1) { if (g_mode == 1 && !(b.run && b.run == g_run)) { InGuard ig; REC.c_lo = REC.c_hi = 0; } }
+    on_range(p, b.size, true, pc);
+}
+
 extern "C" {
 NOSAN void* memcpy(void* d, const void* s, size_t n) {
     if (observing()) { uintptr_t pc = (uintptr_t)__builtin_return_address(0); on_range(s, n, false, pc); on_range(d, n, true, pc); }
@@ -812,8 +830,11 @@ NOSAN static void* trace_thread(void* p) {
     pthread_attr_destroy(&at);
     REC.stack_lo = (uintptr_t)sa; REC.stack_hi = (uintptr_t)sa + ss;
     REC.nguards = 0;
+    // a DESCENDANT workload consumes the objects the main thread prepared for it: one (cold) run only
+    bool single_shot = c18::kWorkloads[a->w].kind == c18::DESCENDANT;
     for (int run = 0; run < 2; ++run) {
         a->maps[run] = new (__libc_malloc(sizeof(ByteMap))) ByteMap();
+        if (run == 1 && single_shot) { a->digest[1] = a->digest[0]; memset(&a->c[1], 0, sizeof a->c[1]); break; }
         REC.run_bytes = a->maps[run];
         memset(&REC.c, 0, sizeof REC.c);
         REC.checked = 0; REC.nregion = 0; REC.c_lo = REC.c_hi = 0;
@@ -1218,6 +1239,18 @@ static std::vector<Task> make_tasks(bool thorough) {
             ts.push_back(t);
         }
     }
+    // DESCENDANT workloads (objects derived from a common ancestor by the main thread): every pair of distinct ones — thread A / B of
+    // one object set and across sets —, all of them together, and all of them next to ten ordinary workloads (16 threads).
+    // Never i == j: the two threads would then share their objects, which is outside the property.
+    int nd = c18::kNumDescendant;
+    for (int i = 0; i < nd; ++i) for (int j = i + 1; j < nd; ++j) { Task t; t.wls.push_back(n + i); t.wls.push_back(n + j); ts.push_back(t); }
+    if (nd) {
+        Task all, mixed;
+        for (int i = 0; i < nd; ++i) { all.wls.push_back(n + i); mixed.wls.push_back(n + i); }
+        for (int i = 0; (int)mixed.wls.size() < 16 && i < n; ++i) mixed.wls.push_back(i);
+        ts.push_back(all);
+        ts.push_back(mixed);
+    }
     return ts;
 }
 
@@ -1267,6 +1300,19 @@ static void report_stage1() {
                ",\"shared_bytes_read\":" + str(rbytes) + ",\"shared_bytes_written\":" + str(wbytes) + ",\"written_only_in_first_run\":" +
                str(f.cold_only_written) + ",\"heap_blocks_allocated\":" + str(f.allocs) + ",\"heap_blocks_still_live\":" + str(f.allocs - f.frees) +
                ",\"guards\":" + str(f.guards.size()) + ",\"shared_symbols_bytes_read_written\":" + sl + "}";
+        if (c18::kWorkloads[w].kind == c18::DESCENDANT) {
+            uint64_t own = 0, other = 0;
+            for (std::map<uintptr_t, PByte>::const_iterator it = f.bytes.begin(); it != f.bytes.end(); ++it)
+                if ((it->second.flags & 2) && !g_ignored_bytes.count(it->first)) {
+                    if (location_name(it->first) == "heap:descendant-object") ++own; else ++other;
+                }
+            R.count("descendant_private_accesses", f.cold.priv_stack + f.cold.priv_heap);
+            R.count("descendant_shared_reads", f.cold.shared_r);
+            R.count("descendant_bytes_written_in_own_objects", own);       // the thread's own copies: mutated and destroyed by design
+            R.count("descendant_bytes_written_elsewhere", other);          // expected 0
+            tot_shared_reads += f.cold.shared_r;
+            if (f.cold.shared_r) R.dist("distinct_nontrivial", fnv(std::string(c18::kWorkloads[w].name)));
+        }
         if (c18::kWorkloads[w].kind == c18::LIBTINS) {
             R.count("stage1_private_accesses", f.cold.priv_stack + f.cold.priv_heap);
             R.count("stage1_shared_reads", f.cold.shared_r);
@@ -1302,11 +1348,12 @@ static void job(int j) {
 
     // ---- canaries (job 0): racy pair must be found dependent, explored, race + divergence detected
     if (j == 0) {
-        int ca = -1, cb = -1, ga = -1, gb = -1, la = -1, lb = -1;
+        int ca = -1, cb = -1, ga = -1, gb = -1, la = -1, lb = -1, sa = -1, sb = -1;
         for (int w = 0; w < c18::kNumWorkloads; ++w) {
             if (c18::kWorkloads[w].kind == c18::CANARY_RACY) { if (ca < 0) ca = w; else cb = w; }
             if (c18::kWorkloads[w].kind == c18::CANARY_GUARDED) { if (ga < 0) ga = w; else gb = w; }
             if (c18::kWorkloads[w].kind == c18::CANARY_LOCKED) { if (la < 0) la = w; else lb = w; }
+            if (c18::kWorkloads[w].kind == c18::CANARY_COPYSHARE) { if (sa < 0) sa = w; else sb = w; }
         }
         std::vector<int> pair; pair.push_back(ca); pair.push_back(cb);
         size_t ord = 0;
@@ -1358,6 +1405,26 @@ static void job(int j) {
         R.count("transitions", ls.points);
         R.count("traces_validated_against_impl", ls.schedules);
         if (!lock_ok) { fprintf(stderr, "C18 BROKEN CHECK: mutex model failed on the locked canary\n"); guard_ok = false; }
+        // copy-sharing canary: two copies (made by the main thread) of one ancestor share a block through a plain use count; each thread
+        // copies and destroys only ITS copy: must be dependent (a heap location that existed before the threads), race + divergence found
+        std::vector<int> sp; sp.push_back(sa); sp.push_back(sb);
+        std::vector<uintptr_t> sconf = union_conflicts(sp, 0);
+        ExploreStats ss;
+        if (!sconf.empty()) ss = explore(sp, sconf, kBound, cap, false, false);
+        bool share_ok = !sconf.empty() && location_name(sconf[0]) == "heap:descendant-object" && ss.races > 0 && ss.divergences > 0 &&
+                        ss.completed_bound == kBound;
+        R.count("copyshare_canary_schedules", ss.schedules);
+        R.count("copyshare_canary_conflict_bytes", sconf.size());
+        R.count("copyshare_canary_races", ss.races);
+        R.count("copyshare_canary_divergences", ss.divergences);
+        R.count("copyshare_canary_detected", share_ok ? 1 : 0);
+        R.count("states", ss.schedules);
+        R.count("schedules", ss.schedules);
+        R.count("transitions", ss.points);
+        R.count("traces_validated_against_impl", ss.schedules);
+        R.sample("{\"canary\":" + jstr(wl_names(sp)) + ",\"dependent\":" + (sconf.empty() ? "false" : "true") + ",\"location\":" +
+                 jstr(sconf.empty() ? "" : location_name(sconf[0])) + ",\"schedules\":" + str(ss.schedules) + ",\"race\":" + jstr(ss.first_race_sig) + "}");
+        if (!share_ok) { fprintf(stderr, "C18 BROKEN CHECK: the copy-sharing canary (use count shared between copies) was not detected\n"); guard_ok = false; }
         if (!detected || !guard_ok) {
             fprintf(stderr, "C18 BROKEN CHECK: canary %s (racy canary: dependent=%d schedules=%llu races=%llu divergences=%llu; guarded canary: ordered=%zu "
                             "unordered=%zu races=%llu divergences=%llu blocked=%llu)\n",
@@ -1383,6 +1450,10 @@ static void job(int j) {
             R.count("pairs_total");
             R.count(conf.empty() ? "pairs_independent" : "pairs_dependent");
             if (ord) R.count("pairs_with_guard_ordered_bytes");
+            if (c18::kWorkloads[wls[0]].kind == c18::DESCENDANT) {
+                R.count("descendant_pairs_total");
+                R.count(conf.empty() ? "descendant_pairs_independent" : "descendant_pairs_dependent");
+            }
         } else R.count("thread_sets_total");
         R.maxv("max_threads", wls.size());
         if (conf.empty()) {
@@ -1483,6 +1554,7 @@ static int replay(const std::string& kase) {
         for (size_t j = i; j < wls.size(); ++j) {
             std::vector<int> p; p.push_back(wls[i]); p.push_back(wls[j]);
             if (wls.size() > 1 && i == j && kv["stage"] == "1") continue;
+            if (i == j && c18::kWorkloads[wls[i]].kind == c18::DESCENDANT) continue;
             std::vector<uintptr_t> conf = union_conflicts(p, 0);
             if (conf.empty()) continue;
             printf("dependent: %s (%zu bytes, first %s)\n", wl_names(p).c_str(), conf.size(), location_name(conf[0]).c_str());
@@ -1497,6 +1569,8 @@ static int replay(const std::string& kase) {
 int main(int argc, char** argv) {
     g_phase = 1;
     c18::setup_registry();
+    g_phase = 3;
+    c18::setup_descendants();       // ancestors + the objects derived from them, before anything is forked / any thread exists
     g_phase = 2;
     load_symbols();
     g_bin_lo = ~(uintptr_t)0;
